@@ -29,10 +29,13 @@ func init() {
 			"refl/lpat restates lstrlib.c 5.1 (match, max_expand, min_expand, captures, %b, sets, C-locale ctype, find/gmatch/gsub drivers) correctly; it was checked against documented manual/PiL examples",
 			"patterns the 5.1 manual gives no meaning (embedded NUL, %f, '-' or classes interacting with ranges inside a set, '%x' or a trailing '%' in a replacement string) are not asserted beyond the no-crash canaries",
 			"init beyond len+1: lstrlib 5.1 clamps, the manual is silent; both the clamped result and nil are accepted",
-			"a hang would show as the wall-clock watchdog (inconclusive), the implementation is only run on inputs the reference finishes within its step budget",
+			"a hang would show as the wall-clock watchdog (inconclusive), the implementation is only run on inputs the reference finishes within its step budget; the one exception is gsub with 10^6 one-byte matches, which has to finish within 90 s (one pass: about a second; the assembly that re-copied the subject per match needed tens of minutes)",
 		},
 		CrashIsViolation: true,
 		Exhaustive:       true,
+		// per-case bound for the large hostile inputs (set with HangLimit around them); every
+		// other case is bounded by the reference's step budget and runs under this generous one
+		HangSeconds:      1500,
 		Run:              run,
 		Replay:           replay,
 		Reproducers:      reproducers,
@@ -50,6 +53,7 @@ func run(c *fw.Ctx) {
 	runSweeps(c, e)
 	runRandom(c, e)
 	runHostile(c, e)
+	runNumberSubjects(c, e)
 }
 
 func replay(c *fw.Ctx, raw json.RawMessage) {
@@ -63,6 +67,8 @@ func replay(c *fw.Ctx, raw json.RawMessage) {
 	case "sweep":
 		sw := &sweepDef{name: "replay", sub: string(cs.SubAlpha)}
 		sweepPattern(c, e, sw, cs.Pat, cs.Idx, subjectsOf(sw.sub, cs.MaxSub), false)
+	case "numsubject":
+		runNumberSubject(c, e, &cs)
 	case "battery":
 		runBattery(c, e, &cs, false)
 	case "classes":
